@@ -342,6 +342,16 @@ def run_law_job(args):
     def add(name, obs, law, method="chi2"):
         tests.append({"name": name, "obs": obs, "law": fl_law(law), "method": method})
 
+    def mk(cls_name, params_, **ex):
+        """The generator under test; a decoy of the same class over the same bloc names with other
+        numbers is constructed after it and dropped before it is used."""
+        g_ = G.make(cls_name, params_, **ex)
+        try:
+            G.make(cls_name, G.decoy(params_), **ex)
+        except Exception:  # noqa: BLE001
+            pass
+        return g_
+
     with R.owned(seed) as _:
         if model == "ImpartialCulture":
             cands = extra["cands"]
@@ -350,14 +360,14 @@ def run_law_job(args):
             add("IC_uniform", ranking_keys(prof), law)
         elif model in ("name_PlackettLuce", "short_name_PlackettLuce"):
             ex = {"ballot_length": extra["ballot_length"]} if model.startswith("short") else {}
-            g = G.make(model, params, **ex)
+            g = mk(model, params, **ex)
             byb, _agg = g.generate_profile(N, by_bloc=True)
             for b in blocs:
                 w = combined_iv(params, b)
                 zero = {c for s in params["slates"].values() for c in s} - set(w)
                 add(f"{model}:{b}", ranking_keys(byb[b], zero), pl_law(w, extra.get("ballot_length")))
         elif model == "name_Cumulative":
-            g = G.make(model, params, num_votes=extra["num_votes"])
+            g = mk(model, params, num_votes=extra["num_votes"])
             byb, _agg = g.generate_profile(N, by_bloc=True)
             k = extra["num_votes"]
             for b in blocs:
@@ -377,7 +387,7 @@ def run_law_job(args):
                     obs[key] = obs.get(key, 0) + int(bl.weight)
                 add(f"name_Cumulative:{b}", obs, law)
         elif model in ("slate_PlackettLuce", "slate_BradleyTerry", "slate_BradleyTerry_MCMC"):
-            g = G.make(model.replace("_MCMC", ""), params)
+            g = mk(model.replace("_MCMC", ""), params)
             kw = {"deterministic": False} if model.endswith("MCMC") else {}
             byb, _agg = g.generate_profile(N, by_bloc=True, **kw)
             for b in blocs:
@@ -394,7 +404,7 @@ def run_law_job(args):
                 else:
                     add(f"{model}:{b}", ranking_keys(byb[b], zero), full_slate_law(tl, params, b))
         elif model in ("name_BradleyTerry", "name_BradleyTerry_MCMC"):
-            g = G.make("name_BradleyTerry", params)
+            g = mk("name_BradleyTerry", params)
             fn = g.generate_profile_MCMC if model.endswith("MCMC") else g.generate_profile
             byb, _agg = fn(N, by_bloc=True)
             for b in blocs:
@@ -402,7 +412,7 @@ def run_law_job(args):
                 zero = {c for s in params["slates"].values() for c in s} - set(w)
                 add(f"{model}:{b}", ranking_keys(byb[b], zero), bt_law(w), "tv" if model.endswith("MCMC") else "chi2")
         elif model in ("AlternatingCrossover", "CambridgeSampler"):
-            g = G.make(model, params)
+            g = mk(model, params)
             byb, _agg = g.generate_profile(N, by_bloc=True)
             for i, b in enumerate(blocs):
                 opp = blocs[(i + 1) % 2]
